@@ -126,7 +126,10 @@ class ModuleInfo:
 
 
 class Program:
-    def __init__(self, repo: str):
+    def __init__(self, repo: str, overrides: Optional[Dict[str, str]] = None):
+        """`overrides` maps a repo-relative path to replacement source text (used by the self-test to analyse a
+        mutated variant in memory; the files on disk are never touched)."""
+        self.overrides = overrides or {}
         self.repo = os.path.abspath(repo)
         self.pkg_dir = os.path.join(self.repo, PKG)
         if not os.path.isdir(self.pkg_dir):
@@ -149,8 +152,11 @@ class Program:
                 modname = rel[:-3].replace(os.sep, ".")
                 if modname.endswith(".__init__"):
                     modname = modname[: -len(".__init__")]
-                with open(path, encoding="utf-8") as fh:
-                    src = fh.read()
+                if rel in self.overrides:
+                    src = self.overrides[rel]
+                else:
+                    with open(path, encoding="utf-8") as fh:
+                        src = fh.read()
                 try:
                     with warnings.catch_warnings():
                         warnings.simplefilter("ignore")
